@@ -192,6 +192,17 @@ func genExchange(x *X, env *sysEnv, cl *sClient, streaming bool) *exchange {
 				rs.steps = append(rs.steps, respStep{kind: "sleep", d: time.Duration(2+c.Intn(4, "gap")) * time.Second})
 			}
 		}
+		if c.Intn(3, "idle-first") == 0 {
+			// the stream opens and stays silent for a while: the head alone must get through
+			rs.steps = append([]respStep{{kind: "sleep", d: time.Duration(2+c.Intn(4, "idle")) * time.Second}}, rs.steps...)
+		}
+	}
+	// trailers after a chunked body (possibly an empty one)
+	if rs.framing == "chunked" && ex.method != "HEAD" && rs.status != 204 && rs.status != 304 && c.Intn(5, "trailer") == 0 {
+		rs.trailer = []hdrKV{{"X-Checksum", "crc32=1c291ca3"}}
+		if c.Intn(2, "trailer2") == 1 {
+			rs.trailer = append(rs.trailer, hdrKV{"Server-Timing", "db;dur=53"})
+		}
 	}
 	return ex
 }
@@ -397,7 +408,26 @@ func checkTransparentAs(x *X, prop string, env *sysEnv, ex *exchange, rh, th str
 		}
 	}
 
+	// ---- trailers --------------------------------------------------------------
+	if len(rs.trailer) > 0 && got.err == "" {
+		wantT := map[string][]string{}
+		for _, kv := range rs.trailer {
+			wantT[httpCanon(kv.K)] = append(wantT[httpCanon(kv.K)], kv.V)
+		}
+		if d := diffHeaders(wantT, map[string][]string(got.trailer)); d != "" {
+			x.Violate(prop, prop+"/trailers-differ", "exchange %d (%s -> %d chunked, %d body bytes): trailers the backend sent did not reach the client unchanged: %s", ex.id, ex.method, rs.status, len(rs.body), d)
+		}
+		x.Probe("trailer-checked")
+	}
 	// ---- streaming ------------------------------------------------------------
+	if rs.framing == "chunked" && len(rs.steps) > 0 && rs.steps[0].kind == "sleep" && rs.steps[0].d >= 2*time.Second && len(ex.writes) > 0 {
+		// the backend flushed its response head and stayed silent: the head must be at the
+		// client before the first body byte is even produced
+		x.Probe("idle-stream-head-checked")
+		if got.headAt >= ex.writes[0].at {
+			x.Violate(prop, prop+"/head-not-streamed", "exchange %d: the backend sent its response head at t=%v and the first body byte at t=%v, but the client had the head only at t=%v", ex.id, rs.headWrittenAt, ex.writes[0].at, got.headAt)
+		}
+	}
 	if len(ex.writes) >= 2 && rs.framing == "chunked" {
 		for i := 0; i+1 < len(ex.writes); i++ {
 			w, next := ex.writes[i], ex.writes[i+1]
